@@ -370,8 +370,9 @@ class F:
         s.exp = exp if n else 0
         return self
 
-    def set_frac(self, v):
-        """store the exact value v (Fraction with 2-power denominator); must fit in prec+1 limbs; low zero limbs stripped"""
+    def set_frac(self, v, pad=0):
+        """store the exact value v (Fraction with 2-power denominator); must fit in prec+1 limbs; low zero limbs stripped,
+        then `pad` zero limbs appended at the low end (a legal, non-minimal representation of the same value)"""
         v = Fraction(v)
         if v == 0:
             self.s.size = 0
@@ -391,6 +392,9 @@ class F:
         while num & MASK == 0:
             num >>= 64
             low -= 1
+        if pad:
+            num <<= 64 * pad
+            low += pad
         n = (num.bit_length() + 63) >> 6
         return self.set_raw(num, n - low, neg)
 
